@@ -156,7 +156,7 @@ func FmtRandom(rng *rand.Rand, id int) *FmtCase {
 		toks = append(toks, "-t "+ph("t", k, chain(rng, v, 2)))
 	}
 	for port, ms := range c.Joined {
-		sep := []string{" ", ",", ":", " -I "}[rng.Intn(4)]
+		sep := []string{" ", ",", ":", " -I ", "\" \"", "','", ";"}[rng.Intn(7)] // (also separators that quote every member)
 		var mods []string
 		if len(ms) > 0 && rng.Intn(2) == 0 {
 			// a chain valid for every member
